@@ -191,7 +191,7 @@ def random_program(rng, pid, honest):
     s1 = edit_tree(rng, s0, nid, True)
     cur = edit_tree(rng, s1 if rng.random() < 0.7 else s0, nid, honest)
     two = rng.random() < 0.5
-    damage = rng.choice(["none", "none", "data", "tree"])
+    damage = rng.choice(["none", "none", "data", "tree", "subtree", "subtree"])
     if damage == "data":
         for e in s0 + s1:
             if e["kind"] == "file" and rng.random() < 0.3:
@@ -241,7 +241,7 @@ def run(ctx):
             group = [c for c in c1 if c["ignore_ctime"] == ic and c["compare_inode"] == ci]
             if q:
                 group = rng.sample(group, 120)
-            for damage in ("none", "data") + (() if q else ("tree",)):
+            for damage in ("none", "data", "subtree") + (() if q else ("tree",)):
                 # compare_inode: the library compares inodes exactly when its ignore_inode flag is set (see DESIGN, observation O1)
                 opts = {"ignore_ctime": ic, "ignore_inode": ci, "skip_if_unchanged": rng.random() < 0.3}
                 p, _ = realise(group, opts, 1, damage, rng)
